@@ -333,6 +333,15 @@ class VInterp(sym.Interp):
             return True, []
         if k == "Bind":
             return True, [(p["id"], p["name"], v)]
+        if k == "PLit" and p.get("lit") == "bool":
+            want = p.get("v") == "true"
+            if v is True or v is sp.true:
+                return want, []
+            if v is False or v is sp.false:
+                return (not want), []
+            if isinstance(v, sp.Basic):
+                return (self.decide(v, p) == want), []       # a symbolic condition matched against `true` / `false`: decided like an `if`
+            return False, []
         if k == "PLit":
             lit = sp.Integer(int(p["v"])) if p.get("lit") == "int" else None
             if lit is None:
@@ -364,7 +373,48 @@ class VInterp(sym.Interp):
             return True, out
         if k in ("PRef", "PDeref"):
             return self.match_pat(p["p"], self.deref(v))
+        if k == "PSlice":
+            v = self.deref(v)
+            if isinstance(v, LazyIter):
+                v = v.items
+            if not isinstance(v, list):
+                raise sym.Unsupported(p, "slice pattern against %r" % (v,))
+            nb, na = len(p.get("before") or []), len(p.get("after") or [])
+            has_rest = "mid" in p
+            if (not has_rest and len(v) != nb + na) or (has_rest and len(v) < nb + na):
+                return False, []
+            out = []
+            for sp_, sv in list(zip(p.get("before") or [], v[:nb])) + list(zip(p.get("after") or [], v[len(v) - na:] if na else [])):
+                ok, b = self.match_pat(sp_, sv)
+                if not ok:
+                    return False, []
+                out += b
+            if has_rest and p["mid"].get("k") != "Wild":
+                ok, b = self.match_pat(p["mid"], ListView(v, nb, len(v) - na))
+                if not ok:
+                    return False, []
+                out += b
+            return True, out
+        if k == "POr":
+            for q in p["ps"]:
+                ok, b = self.match_pat(q, v)
+                if ok:
+                    return True, b
+            return False, []
+        if k == "PRange":
+            raise sym.Unsupported(p, "range pattern")
         raise sym.Unsupported(p, "pattern %s" % k)
+
+    def ev_Let(self, n):
+        """`if let PAT = e` / `while let PAT = e` as a condition: binds on success."""
+        v = self.deref(self.ev(n["init"]))
+        ok, binds = self.match_pat(n["pat"], v)
+        if not ok:
+            return sp.false
+        for i, nm, val in binds:
+            self.env[i] = val
+            self.names[i] = nm
+        return sp.true
 
     def bind(self, pat, val, node=None):
         k = pat.get("k")
@@ -709,6 +759,55 @@ class VInterp(sym.Interp):
             if getattr(a, "is_Integer", False) and getattr(b, "is_Integer", False):
                 return sp.Integer(max(int(a) - int(b), 0)) if name == "saturating_sub" else sp.Integer(abs(int(a) - int(b)))
             return sp.Max(a - b, 0) if name == "saturating_sub" else sp.Abs(a - b)
+        if name in ("checked_sub", "checked_add", "checked_mul", "checked_div", "checked_rem", "wrapping_add", "wrapping_sub", "saturating_add",
+                    "overflowing_sub", "rem_euclid", "div_euclid", "trailing_zeros", "leading_zeros", "count_ones", "is_power_of_two", "next_power_of_two", "ilog2") \
+                and ("core::num" in (n.get("def") or "") or "std::num" in (n.get("def") or "")):
+            a = self.num(rv, n)
+            args_ = [self.num(self.ev(x), n) for x in n["args"]]
+            if not (getattr(a, "is_Integer", False) and all(getattr(x, "is_Integer", False) for x in args_)):
+                raise sym.Unsupported(n, "integer method %s on a symbolic value" % name)
+            a = int(a)
+            bs = [int(x) for x in args_]
+            unsigned = (n["recv"].get("ty") or "").lstrip("&").startswith("u")
+            some, none = (lambda x: sym.Variant("Some", [sp.Integer(x)])), sym.Variant("None")
+            if name == "checked_sub":
+                return none if (unsigned and a - bs[0] < 0) else some(a - bs[0])
+            if name == "checked_add":
+                return some(a + bs[0])
+            if name == "checked_mul":
+                return some(a * bs[0])
+            if name in ("checked_div", "checked_rem"):
+                return none if bs[0] == 0 else some(a // bs[0] if name == "checked_div" else a % bs[0])
+            if name in ("wrapping_add", "saturating_add"):
+                return sp.Integer(a + bs[0])
+            if name == "wrapping_sub":
+                if unsigned and a - bs[0] < 0:
+                    raise sym.Unsupported(n, "wrapping_sub wraps")
+                return sp.Integer(a - bs[0])
+            if name == "rem_euclid":
+                return sp.Integer(a % bs[0])
+            if name == "div_euclid":
+                return sp.Integer(a // bs[0])
+            if name == "trailing_zeros":
+                return sp.Integer((a & -a).bit_length() - 1) if a else sp.Integer(64)
+            if name == "count_ones":
+                return sp.Integer(bin(a).count("1"))
+            if name == "is_power_of_two":
+                return sp.true if a > 0 and a & (a - 1) == 0 else sp.false
+            if name == "next_power_of_two":
+                return sp.Integer(1 if a <= 1 else 1 << (a - 1).bit_length())
+            if name == "ilog2":
+                if a <= 0:
+                    raise IndexPanic(n, "ilog2 of a non-positive number")
+                return sp.Integer(a.bit_length() - 1)
+            raise sym.Unsupported(n, "integer method %s" % name)
+        if name in ("then_some", "then") and "bool" in (n.get("def") or "") and len(n["args"]) == 1:
+            if name == "then_some":
+                x = self.ev(n["args"][0])                 # evaluated eagerly, whatever the condition
+                return sym.Variant("Some", [x]) if self.decide(rv, n) else sym.Variant("None")
+            if self.decide(rv, n):
+                return sym.Variant("Some", [self.apply_closure(self._closure_arg(n), [], n)])
+            return sym.Variant("None")
         if name in ("is_finite", "is_nan", "is_infinite"):
             return sp.Function(name)(self.num(rv, n))
         if name == "modulus_squared":
@@ -830,10 +929,20 @@ class VInterp(sym.Interp):
             if i >= len(v):
                 raise IndexPanic(n, "remove index out of bounds")
             return v.pop(i)
-        if name == "get":
+        if name in ("get", "get_mut"):
             i = self.ev(n["args"][0])
             if getattr(i, "is_Integer", False):
-                return sym.Variant("Some", [v[int(i)]]) if 0 <= int(i) < len(v) else sym.Variant("None")
+                if not (0 <= int(i) < len(v)):
+                    return sym.Variant("None")
+                return sym.Variant("Some", [ElemRef(v, int(i)) if name == "get_mut" else v[int(i)]])
+            if isinstance(i, tuple) and i and i[0] == "range":
+                a = 0 if i[1] is None else int(i[1])
+                b = len(v) if i[2] is None else int(i[2])
+                return sym.Variant("Some", [ListView(v, a, b)]) if 0 <= a <= b <= len(v) else sym.Variant("None")
+        if name in ("first_mut", "last_mut"):
+            if not v:
+                return sym.Variant("None")
+            return sym.Variant("Some", [ElemRef(v, 0 if name == "first_mut" else len(v) - 1)])
         if name in ("fill",):
             x = self.deref(self.ev(n["args"][0]))
             for i in range(len(v)):
